@@ -184,8 +184,27 @@ def check_statementwise(case):
     prog = case['prog']
     res = Result(nontrivial=len(prog) > 1, classes=['statement-at-a-time'])
     canon, _ = G.render_program(prog, [])
+    texts = [G.render_program([s], [])[0] for s in prog]
+    restate = case.get('restate')
+    assigns = [i for i, s in enumerate(prog) if s[0] == 'assign']
+    if restate is not None and assigns:
+        # one equation is stated a second time, in another layout (restricted to layout kinds that never reach the
+        # normalised text: comments, padding inside brackets / braces / angle brackets, an explicit [0], line breaks and
+        # padding inside parentheses). Identical restatements are one definition.
+        i = assigns[restate[0] % len(assigns)]
+        again = G.render_program([prog[i]], G.Tape(restate[1], kinds={'index-pad', 'explicit0', 'brace-pad', 'angle-pad', 'comment',
+                                                                       'paren-pad', 'wrap-rhs'}))[0]
+        a1, a2 = attempt(fsic.parse_model, texts[i]), attempt(fsic.parse_model, again)
+        same_text = a1.ok and a2.ok and [(x.name, x.equation, x.code) for x in a1.value] == [(x.name, x.equation, x.code) for x in a2.value]
+        if same_text:
+            res.tag('restated-equation')
+            res.nontrivial = True
+            canon = canon + '\n' + again + '\n'
+            texts.append(again)
+        else:
+            res.tag('restated-equation:normal-form-differs(skipped)')
     whole = attempt(fsic.parse_model, canon)
-    parts = [attempt(fsic.parse_model, G.render_program([s], [])[0]) for s in prog]
+    parts = [attempt(fsic.parse_model, t_) for t_ in texts]
     if not all(p.ok for p in parts):
         if whole.ok:
             res.fail('statementwise/part-rejected', f'{canon!r} parses but a single statement does not: '
@@ -268,7 +287,8 @@ def strat_perm():
 
 def strat_prog_only():
     from hypothesis import strategies as st
-    return st.fixed_dictionaries({'prog': G.programs(max_statements=4, blocks=True, named_periods=False)})
+    return st.fixed_dictionaries({'prog': G.programs(max_statements=4, blocks=True, named_periods=False)},
+                                 optional={'restate': st.tuples(st.integers(0, 3), G.tapes(12)).map(list)})
 
 
 def strat_fixed_point():
